@@ -580,7 +580,7 @@ def run(facts, cg):
                 val = None
                 if q.endswith('HashMap::insert') and len(t['args']) >= 3:
                     val = t['args'][2]
-                elif q.endswith(('Entry::or_insert', 'Entry::or_insert_with')) and len(t['args']) >= 2:
+                elif q.endswith(('Entry::or_insert', 'Entry::or_insert_with', 'VacantEntry::insert', 'VacantEntry::insert_entry')) and len(t['args']) >= 2:
                     val = t['args'][1]
                 if val is None:
                     continue
